@@ -26,7 +26,7 @@
     the interface): a reactive step that changes them in a way the connection does not take part in is not a
     step of the product.  Executable definitions only. *)
 From Coq Require Import List ZArith String Bool Arith.
-From Thunder Require Import Lib.Json DiffMerge.Model Server.Model Server.Spec.
+From Thunder Require Import Lib.Json DiffMerge.Model Server.Model Server.Spec Server.Iface.
 From Thunder Require Reactive.Graph Reactive.Rerunner.
 Import ListNotations.
 Open Scope list_scope.
@@ -91,6 +91,19 @@ Definition is_none (e : iev) : bool := match e with INone => true | _ => false e
 Definition events (n : nat) (rx rx' : RR.state) : list (nat * iev) :=
   filter (fun p => negb (is_none (snd p)))
          (map (fun r => (r, iev_of (RR.getr rx r) (RR.getr rx' r))) (seq 0 n)).
+
+(** The same step in the vocabulary of Server/Iface.v - what the hooks of reactive/rerunner.go report: Stop's
+    critical section (with whether a computation was held), publish (with whether there was a previous
+    computation), a non-retry failure. *)
+Definition is_some {A} (o : option A) : bool := match o with Some _ => true | None => false end.
+
+Definition rx_ev (x y : RR.rr) : option rxev :=
+  if negb (RR.r_stop x) && RR.r_stop y then Some (XStop (is_some (RR.r_comp x)))
+  else match iev_of x y with
+       | IPub _ => Some (XPub (is_some (RR.r_comp x)))
+       | IFail => Some XFail
+       | _ => None
+       end.
 
 (** * Rerunner.Stop, called by the connection: LStop spawns the call, its two critical sections follow at once *)
 
@@ -191,6 +204,22 @@ Definition pstep (w : world) (p : pstate) (pl : plabel) : option pstate :=
                     end
                else None
            end
+  end.
+
+(** The step of the connection model a product step contains, if any. *)
+Definition plabel_server (w : world) (p : pstate) (pl : plabel) : option label :=
+  match pl with
+  | PServer l => Some l
+  | PReact l o =>
+      match RR.step (snd p) l with
+      | Some rx' =>
+          match events (pool w) (snd p) rx', o with
+          | [(r, IPub out)], None => Some (LRun r (OOk (w_render w r out)))
+          | [(r, IFail)], Some oc => Some (LRun r oc)
+          | _, _ => None
+          end
+      | None => None
+      end
   end.
 
 Fixpoint prun (w : world) (p : pstate) (h : list plabel) : option pstate :=
